@@ -13,6 +13,7 @@ import (
 	"runtime"
 	"sort"
 	"sync"
+	"sync/atomic"
 	"time"
 
 	"wmverif/tr"
@@ -132,12 +133,21 @@ func Guarded(f func()) (panicked bool, val string) {
 	return
 }
 
+var hangs int32
+
 // WaitOrHang waits for done; returns false if it is not closed within HangBound.
+// After a few hangs have been seen in this process the bound is shortened, so
+// that a tree on which everything hangs is still reported in reasonable time.
 func WaitOrHang(done <-chan struct{}) bool {
+	b := HangBound
+	if atomic.LoadInt32(&hangs) >= 3 {
+		b = HangBound / 10
+	}
 	select {
 	case <-done:
 		return true
-	case <-time.After(HangBound):
+	case <-time.After(b):
+		atomic.AddInt32(&hangs, 1)
 		return false
 	}
 }
